@@ -54,6 +54,11 @@ type Fault struct {
 	// every later statement (or the commit) fails, and db.Tx.Rollback returns an error, so the rollback callbacks are NOT
 	// run. As in production (a cancelled context is a shutdown) the processor is then closed and reopened.
 	Cancel bool `json:"cancel,omitempty"`
+	// Read: no failure either; the k-th write is made slow and, WHILE the block's transaction is open, another goroutine asks the
+	// facade (on another pooled connection) for the exit roots, the proofs and the root-by-LER entries of exactly the roots this
+	// block is about to record (learnt from a shadow processor that processed the block first). The unchanged code answers
+	// not-found; what matters is that the same questions are answered correctly once the block is committed.
+	Read bool `json:"read,omitempty"`
 }
 
 type Op struct {
@@ -253,6 +258,8 @@ func removeFault(db *sql.DB) {
 }
 
 type runner struct {
+	shadow       *runner // clean processor that is one block ahead when a mid-transaction read is scripted
+	okBlocks     []aggsync.Block // blocks recorded and not reorged away (to bring a late-created shadow up to date)
 	cancelWaitMs []int64 // how long each cancelled ProcessBlock took to return (evidence that the slow statement was running)
 	ctx       context.Context
 	path      string
@@ -600,7 +607,12 @@ func installFaultForBlock(db *sql.DB, f *Fault, blockNum uint64) {
 func runOps(dir string, name string, ops []Op, proofs string, maxDC int64) (res []string, snaps []Snap, leaves []string) {
 	r := &runner{ctx: context.Background(), path: filepath.Join(dir, name+".sqlite"), leaves: map[uint32]string{}, maxDC: maxDC, proofs: proofs}
 	r.open()
-	defer func() { bridgesync.VerifClose(r.s) }()
+	defer func() {
+		bridgesync.VerifClose(r.s)
+		if r.shadow != nil {
+			bridgesync.VerifClose(r.shadow.s)
+		}
+	}()
 	for _, op := range ops {
 		switch op.K {
 		case "block":
@@ -613,6 +625,47 @@ func runOps(dir string, name string, ops []Op, proofs string, maxDC int64) (res 
 					r.allLeaves = append(r.allLeaves, pending[e.DC])
 				}
 				blk.Events = append(blk.Events, ev)
+			}
+			if op.Fault != nil && op.Fault.Read {
+				// the shadow learns the roots this block will record
+				if r.shadow == nil {
+					r.shadow = &runner{ctx: r.ctx, path: r.path + ".shadow", leaves: map[uint32]string{}}
+					r.shadow.open()
+					for _, done := range r.okBlocks {
+						_ = bridgesync.VerifProcessBlock(r.ctx, r.shadow.s, done)
+					}
+				}
+				var asks []treetypes.Root
+				if err := bridgesync.VerifProcessBlock(r.ctx, r.shadow.s, blk); err == nil {
+					for _, e := range op.Events {
+						if e.T == "bridge" {
+							if root, err := r.shadow.s.GetExitRootByIndex(r.ctx, e.DC); err == nil {
+								asks = append(asks, root)
+							}
+						}
+					}
+				}
+				installSlow(bridgesync.VerifDB(r.s), op.Fault)
+				done := make(chan error, 1)
+				go func() { done <- bridgesync.VerifProcessBlock(r.ctx, r.s, blk) }()
+				time.Sleep(40 * time.Millisecond)
+				for _, root := range asks {
+					_, _ = r.s.GetExitRootByIndex(r.ctx, root.Index)
+					_, _ = r.s.GetRootByLER(r.ctx, root.Hash)
+					for idx := uint32(0); idx <= root.Index; idx++ {
+						_, _ = r.s.GetProof(r.ctx, idx, root.Hash)
+					}
+				}
+				err := <-done
+				removeFault(bridgesync.VerifDB(r.s))
+				if err == nil {
+					for k, v := range pending {
+						r.leaves[k] = v
+					}
+					r.okBlocks = append(r.okBlocks, blk)
+				}
+				res = append(res, errClass(err))
+				break
 			}
 			if op.Fault != nil && op.Fault.Cancel {
 				installSlow(bridgesync.VerifDB(r.s), op.Fault)
@@ -628,6 +681,10 @@ func runOps(dir string, name string, ops []Op, proofs string, maxDC int64) (res 
 				if err == nil {
 					for k, v := range pending {
 						r.leaves[k] = v
+					}
+					r.okBlocks = append(r.okBlocks, blk)
+					if r.shadow != nil {
+						_ = bridgesync.VerifProcessBlock(r.ctx, r.shadow.s, blk)
 					}
 					res = append(res, "ok")
 				} else {
@@ -649,9 +706,23 @@ func runOps(dir string, name string, ops []Op, proofs string, maxDC int64) (res 
 				for k, v := range pending {
 					r.leaves[k] = v
 				}
+				r.okBlocks = append(r.okBlocks, blk)
+				if r.shadow != nil {
+					_ = bridgesync.VerifProcessBlock(r.ctx, r.shadow.s, blk)
+				}
 			}
 			res = append(res, errClass(err))
 		case "reorg":
+			keep := r.okBlocks[:0:0]
+			for _, b := range r.okBlocks {
+				if b.Num < op.B {
+					keep = append(keep, b)
+				}
+			}
+			r.okBlocks = keep
+			if r.shadow != nil {
+				_ = bridgesync.VerifReorg(r.ctx, r.shadow.s, op.B)
+			}
 			var rows *sql.Rows
 			if op.Busy { // keep one pooled connection busy with an open cursor, so that the reorg runs on another one
 				rows, _ = bridgesync.VerifDB(r.s).Query("SELECT num FROM block UNION ALL SELECT 0")
